@@ -23,6 +23,7 @@ import (
 
 	"verifharness/internal/core"
 	"verifharness/internal/props"
+	"verifharness/internal/ref"
 )
 
 const verifRoot = "/verif"
@@ -38,6 +39,7 @@ var outRoot = func() string {
 }()
 
 func main() {
+	ref.ProbeDialect()
 	if len(os.Args) < 2 {
 		fmt.Fprintln(os.Stderr, "usage: vcheck run|worker|replay …")
 		os.Exit(2)
